@@ -16,7 +16,7 @@
 //!   cs     chunk size of every connection (0 = default): a port message carries at most cs/4 requests
 //!   free0 / freeF  free ports left in the port allocator of the origin / the far end when the first
 //!          value is serialized / deserialized (99 = unlimited)
-//!   fault  0 none | 1 cut the LAST connection while value 0 is in flight (sent, not yet delivered)
+//!   fault  0 none | 1 cut the LAST connection while value 0 is in flight (sent, not yet delivered; rbuf = 0)
 //!          | 2 cut the FIRST connection in the same situation | 3 cut the last connection after everything
 //!          was delivered and connected | 4 cut the first connection then
 //!   retry  1 = after a send that failed with a serialization error release all hogged ports and
@@ -850,6 +850,8 @@ async fn run_case(c: &Case) -> Option<Trace> {
             if in_flight_cut && !cut_done {
                 cut(cut_at);
                 cut_done = true;
+                // a lost connection releases its ports: from here on the origin's allocator is not limited
+                hog0.clear();
                 barrier().await;
             }
             // send side
@@ -938,6 +940,19 @@ async fn run_case(c: &Case) -> Option<Trace> {
         }
         sends.push(res);
         barrier().await;
+        // the far end keeps receiving (as an application would): requests that nobody waited for
+        // (failed deserialization; a value none of whose halves the far end knows) are consumed, i.e.
+        // rejected, now and not only when the next value arrives
+        {
+            let vrx2 = vrx.clone();
+            let _ = step(async move {
+                let mut g = vrx2.lock().await;
+                if let Some(rx) = g.as_mut() {
+                    let _ = rx.recv().await;
+                }
+            })
+            .await;
+        }
     }
     // a failed deserialization leaves the port requests of that value queued: the far end keeps
     // receiving (as an application would) until nothing more arrives; after an error on the last value
@@ -1306,7 +1321,8 @@ pub fn gen(r: &mut Rng, i: usize) -> Vec<Vec<u128>> {
         _ => 4,
     };
     let retry = (free0 != 99 && r.chance(1, 2)) as u128;
-    let rbuf = if r.chance(1, 2) { 0 } else { *r.pick(&[64u64, 68, 96, 128, 256, 1024]) };
+    // (a value in flight on a frozen link must fit the receive buffer: default buffer for faults 1, 2)
+    let rbuf = if r.chance(1, 2) || fault == 1 || fault == 2 { 0 } else { *r.pick(&[64u64, 68, 96, 128, 256, 1024]) };
     let cs = if r.chance(1, 2) { 0 } else { *r.pick(&[4u64, 5, 8, 12, 16, 64]) };
     let kind = (i % 16 == 7) as u128;
     let mut v: Vec<u128> = vec![
